@@ -521,7 +521,7 @@ where
             dashmap::DashMap::with_capacity_and_hasher_and_shard_amount(
                 initial_capacity,
                 build_hasher.clone(),
-                crate::verif::SHARD_AMOUNT,
+                crate::verif::shard_amount(),
             )
         };
 
